@@ -123,6 +123,19 @@ Theorem C01_limit_resolves : forall c has_t api0 cache0 evs s tr pls cur v s' o,
 Proof. exact limit_resolves. Qed.
 Print Assumptions C01_limit_resolves.
 
+(* Bounded progress of the partition lookups (the other way a batch could hang): the attempt counter of the batch is
+   shared by its lookups and its produce requests; every lookup whose metadata load comes back with the topic still in
+   error uses up one attempt, and once the counter has reached the limit a lookup that returns to its loop head never
+   asks for metadata again - it ends (with the partition if the metadata is good now, else with the topic's error, and
+   the send then fails).  So a batch makes at most max_req_attempts failed metadata round trips per lookup. *)
+Theorem C01_lookup_quota : forall c s x, c_max c <= attempts s -> exists r, lookup_head c s x = (s, [], LDone r).
+Proof. exact lookup_quota. Qed.
+Print Assumptions C01_lookup_quota.
+Theorem C01_lookup_failure_counts : forall c s x s' o l, stopping s = false -> lookup_loaded c s x = (s', o, l) ->
+  (exists r, l = LDone r /\ s' = s) \/ (attempts s' = attempts s + 1 /\ exists tid, l = LTimer tid).
+Proof. exact lookup_failure_counts. Qed.
+Print Assumptions C01_lookup_failure_counts.
+
 (* Composed with the broker spec of Model/ProducerCompose.v (partition -> log, produce = append, reply = error code
    or base offset; the client's results are COMPUTED from what the cluster does with each payload: acknowledge,
    answer with an error code, or lose the response - the last two with or without having appended).  For every
